@@ -8,7 +8,7 @@
   Hypothesis `closedB h s = true`: the source is a closed schema ("all valid schemas"). It is needed: an
   object reachable from the roots but not registered would be adopted by the clone and healed in place.
 -/
-import PyGqlModel.Lemmas.HeapReach
+import PyGqlModel.Lemmas.HeapNames
 import PyGqlModel.Props.C14
 
 set_option linter.unusedSimpArgs false
@@ -146,6 +146,29 @@ theorem clone_frames_closed_source_refuted_legacy : ¬ CloneFramesClosedSource C
 
 /-- non-vacuity: the witness is closed and the fixed clone of it succeeds -/
 example : closedB h0 s0 = true ∧ (transform Cfg.fixed 8 [] s0 h0).isSome = true := by decide
+
+/-! #### intactness (T1) -/
+
+/-- FULL (T1, fixed variant): `clone()` registers every name its source registers — implementer-only objects,
+    unreferenced types, types used only by directive arguments included; for every heap and schema -/
+theorem clone_intact (cfg : Cfg) (hd : cfg.deepClone = true) (hk : cfg.keepAllTypes = true) (fuel : Nat) (s : Schema) (h h' : Heap)
+    (s' : Schema) (e : clone cfg fuel s h = some (h', s')) : ∀ n, n ∈ names s → n ∈ names s' :=
+  clone_names cfg hd hk fuel s h h' s' e
+
+/-- FULL: clone-based transforms by visitors that never delete a type (camel-case, drop/wrap field directives, heal)
+    keep every registered name -/
+theorem transform_intact (cfg : Cfg) (hd : cfg.deepClone = true) (hk : cfg.keepAllTypes = true) (fuel : Nat) (vs : List Visitor)
+    (hv : ∀ v, v ∈ vs → NoTypeDelete v) (s : Schema) (h h' : Heap) (s' : Schema)
+    (e : transform cfg fuel vs s h = some (h', s')) : ∀ n, n ∈ names s → n ∈ names s' := by
+  intro n hn
+  simp only [transform] at e
+  split at e
+  · cases e
+  · rename_i r hr
+    obtain ⟨h1, s1⟩ := r
+    exact transformFrom_names cfg fuel vs hv h1 s1 h' s' e n (clone_names cfg hd hk fuel s h h1 s1 hr n hn)
+
+example : NoTypeDelete (.camel id) ∧ NoTypeDelete (.sdir (fun _ _ => false) (fun _ _ => none)) := ⟨trivial, trivial⟩
 
 /-- the working tree's variant (re-extracted on every run) is the deep-clone one: the theorem applies to it -/
 theorem current_clone_frames_source (hd : PyGql.Generated.HeapCfg.currentCfg.deepClone = true) :
